@@ -48,7 +48,7 @@ func ruleR37() *Rule {
 	return &Rule{
 		ID:    "R37",
 		Title: "ENCODER-TYPESTATE: a reused chunked int coder is given the term's chunk size after it was created or reset and before the first posting is added",
-		Props: []string{"C01", "C06"},
+		Props: []string{"C01", "C06", "C10"},
 		Floor: floorFor("R37"),
 		Run:   runR37,
 	}
@@ -503,6 +503,7 @@ func assignedNameAt(fn *ssa.Function, pos token.Pos) string {
 }
 
 func runR37(c *RuleCtx) {
+	r37ContentCoder(c)
 	ctor := c.fn("newChunkedIntCoder")
 	if ctor == nil {
 		return
@@ -564,4 +565,245 @@ func runR37(c *RuleCtx) {
 			"a posting can be added while the coder still has the placeholder chunk size (or the previous term's): the reader derives the chunk size from this term's cardinality and will look in the wrong chunk", wit...)
 	}
 	c.add(statusOf(n >= half(4)), "sized-before-add/sites", "-", "the reused int coders are found (pinned tree: tfEncoder and locEncoder in writeDicts and in mergeAndPersistInvertedSection)", fmt.Sprintf("found %d", n), []string{"C01", "C06"}, nil)
+}
+
+// r37ContentCoder (R37b): the same typestate for the doc-value coder. A chunkedContentCoder that is Reset
+// keeps the chunk table (chunkLens) sized for its previous use; before it is used again — a posting
+// added, or the coder handed back by a function that recycles it — SetChunkSize must have been called
+// (directly, or by a method of the coder that does so on every path). The pinned tree only ever resets
+// a coder it is about to drop, so this has nothing to say there; it speaks when coders are recycled.
+func r37ContentCoder(c *RuleCtx) {
+	p := c.p
+	props := []string{"C01", "C06", "C10"}
+	isCC := func(t types.Type) bool {
+		pt, ok := t.Underlying().(*types.Pointer)
+		return ok && isNamed(pt.Elem(), zapPkgPath, "chunkedContentCoder")
+	}
+	// methods of the coder that size it on every path
+	sizes := map[*ssa.Function]bool{}
+	for changed := true; changed; {
+		changed = false
+		for _, fn := range p.ZapFuncs {
+			if sizes[fn] || fn.Signature.Recv() == nil || !isCC(fn.Signature.Recv().Type()) || len(fn.Blocks) == 0 {
+				continue
+			}
+			if fn.Name() == "SetChunkSize" {
+				sizes[fn] = true
+				changed = true
+				continue
+			}
+			recv := fn.Params[0]
+			pa := newPathAnalysis(fn, func(in ssa.Instruction, ev uint64, _ bool) []uint64 {
+				if cs, ok := in.(ssa.CallInstruction); ok {
+					if f := staticCallee(cs); f != nil && sizes[f] && len(cs.Common().Args) > 0 && root(cs.Common().Args[0]) == ssa.Value(recv) {
+						return []uint64{ev | 1}
+					}
+				}
+				return nil
+			})
+			pa.run(0)
+			all, n := true, 0
+			for _, ret := range returnsOf(fn) {
+				for _, ev := range pa.statesBefore(ret) {
+					n++
+					if ev&1 == 0 {
+						all = false
+					}
+				}
+			}
+			if all && n > 0 {
+				sizes[fn] = true
+				changed = true
+			}
+		}
+	}
+	same := func(a, b ssa.Value) bool {
+		if a == b || root(a) == root(b) {
+			return true
+		}
+		s1, f1, b1, ok1 := loadedField(a)
+		s2, f2, b2, ok2 := loadedField(b)
+		return ok1 && ok2 && s1 == s2 && f1 == f2 && root(b1) == root(b2)
+	}
+	n := 0
+	// a function that hands out a coder it keeps in a field (a recycled one) sizes it on every path:
+	// whoever reset it is somewhere else
+	for _, fn := range p.ZapFuncs {
+		if fn.Signature.Recv() != nil && isCC(fn.Signature.Recv().Type()) {
+			continue
+		}
+		for _, ret := range returnsOf(fn) {
+			for _, r := range ret.Results {
+				if !isCC(r.Type()) {
+					continue
+				}
+				sn, fld, _, ok := loadedField(root(r))
+				if !ok {
+					continue
+				}
+				x := root(r)
+				pa := newPathAnalysis(fn, func(in ssa.Instruction, ev uint64, _ bool) []uint64 {
+					switch y := in.(type) {
+					case ssa.CallInstruction:
+						if f := staticCallee(y); f != nil && sizes[f] && len(y.Common().Args) > 0 && same(y.Common().Args[0], x) {
+							return []uint64{ev | 1}
+						}
+					case *ssa.Store:
+						if s2, f2, _, ok := fieldOf(y.Addr); ok && s2 == sn && f2 == fld {
+							if call, ok := y.Val.(*ssa.Call); ok {
+								if f := call.Call.StaticCallee(); f != nil && namedFn(f, "newChunkedContentCoder") {
+									return []uint64{ev | 1}
+								}
+							}
+							return []uint64{ev &^ 1}
+						}
+					}
+					return nil
+				})
+				pa.run(0)
+				okc := len(pa.statesBefore(ret)) > 0
+				for _, ev := range pa.statesBefore(ret) {
+					if ev&1 == 0 {
+						okc = false
+					}
+				}
+				n++
+				c.add(statusOf(okc), fmt.Sprintf("content-coder/handed-out/%s#%d", funcShortName(fn), n), c.pos(ret),
+					"the doc-value coder that "+funcShortName(fn)+" keeps in "+sn+"."+fld+" and hands out was created on this path or given its chunk size (SetChunkSize) on it",
+					"a recycled coder is handed out on a path that does not size it: it keeps the chunk table of its previous use", props, nil)
+			}
+		}
+	}
+	for _, fn := range p.ZapFuncs {
+		if fn.Signature.Recv() != nil && isCC(fn.Signature.Recv().Type()) {
+			continue // the coder's own methods
+		}
+		var resets []ssa.CallInstruction
+		for _, cs := range callSites(fn) {
+			if f := staticCallee(cs); f != nil && f.Name() == "Reset" && f.Signature.Recv() != nil && isCC(f.Signature.Recv().Type()) {
+				resets = append(resets, cs)
+			}
+		}
+		for _, rs := range resets {
+			x := rs.Common().Args[0]
+			const evUnsized = 1
+			// where the coder comes from in this function: a constructor or a helper that hands one out
+			// (judged on its own) — passing that point, the coder is as that function left it
+			var origin ssa.Instruction
+			switch d := root(x).(type) {
+			case *ssa.Call:
+				origin = d
+			case *ssa.Extract:
+				if call, ok := d.Tuple.(*ssa.Call); ok {
+					origin = call
+				}
+			}
+			// created in this very function for this build: Reset zeroes the chunk table and the sizing
+			// parameters (chunk mode, document count) are the same for every use here
+			if oc, ok := origin.(*ssa.Call); ok {
+				if f := oc.Call.StaticCallee(); f != nil && namedFn(f, "newChunkedContentCoder") {
+					continue
+				}
+			}
+			if localCoder(x, 0, map[ssa.Value]bool{}) {
+				continue // (a local variable that only ever holds coders made here, or nil)
+			}
+			pa := newPathAnalysis(fn, func(in ssa.Instruction, ev uint64, _ bool) []uint64 {
+				if origin != nil && in == origin {
+					return []uint64{ev &^ evUnsized}
+				}
+				cs, ok := in.(ssa.CallInstruction)
+				if !ok {
+					return nil
+				}
+				if cs == rs {
+					return []uint64{ev | evUnsized}
+				}
+				f := staticCallee(cs)
+				if f == nil || len(cs.Common().Args) == 0 || !same(cs.Common().Args[0], x) {
+					return nil
+				}
+				if sizes[f] {
+					return []uint64{ev &^ evUnsized}
+				}
+				return nil
+			})
+			pa.run(0)
+			var bad []string
+			for _, cs := range callSites(fn) {
+				f := staticCallee(cs)
+				if f == nil || f.Name() != "Add" || len(cs.Common().Args) == 0 || !same(cs.Common().Args[0], x) {
+					continue
+				}
+				for _, ev := range pa.statesBefore(cs) {
+					if ev&evUnsized != 0 {
+						bad = append(bad, "added to after Reset without SetChunkSize: "+describeInstr(p, cs))
+						break
+					}
+				}
+			}
+			for _, ret := range returnsOf(fn) {
+				for _, r := range ret.Results {
+					if !isCC(r.Type()) || !same(r, x) {
+						continue
+					}
+					for _, ev := range pa.statesBefore(ret) {
+						if ev&evUnsized != 0 {
+							bad = append(bad, "handed back after Reset without SetChunkSize: "+describeInstr(p, ret))
+							break
+						}
+					}
+				}
+			}
+			n++
+			c.add(statusOf(len(bad) == 0), fmt.Sprintf("content-coder/%s#%d", funcShortName(fn), n), c.pos(rs),
+				"a doc-value coder that "+funcShortName(fn)+" resets is given its chunk size again (SetChunkSize) before it is added to or handed back",
+				"the recycled coder keeps the chunk table of its previous use: the number of chunk offsets written, and which chunk a document falls into, follow the previous segment", props, uniq(bad))
+		}
+	}
+}
+
+// localCoder: every value the variable can hold is nil or the result of newChunkedContentCoder in this
+// function (through phis and local cells).
+func localCoder(v ssa.Value, depth int, seen map[ssa.Value]bool) bool {
+	if depth > 6 {
+		return false
+	}
+	if seen[v] {
+		return true
+	}
+	seen[v] = true
+	switch x := v.(type) {
+	case *ssa.Const:
+		return x.IsNil()
+	case *ssa.Call:
+		f := x.Call.StaticCallee()
+		return f != nil && namedFn(f, "newChunkedContentCoder")
+	case *ssa.Phi:
+		for _, e := range x.Edges {
+			if !localCoder(e, depth+1, seen) {
+				return false
+			}
+		}
+		return true
+	case *ssa.UnOp:
+		if x.Op != token.MUL {
+			return false
+		}
+		al := cellOf(x.X)
+		if al == nil {
+			return false
+		}
+		sts := cellStores(al)
+		if len(sts) == 0 {
+			return false
+		}
+		for _, st := range sts {
+			if !localCoder(st.Val, depth+1, seen) {
+				return false
+			}
+		}
+		return true
+	}
+	return false
 }
